@@ -48,7 +48,7 @@ def safe_inline(fnode, exclude=()):
 
 class Table(object):
     def __init__(self, ctx, f, variables, constraint=None, extra_vars=(),
-                 inline_exclude=(), types=None):
+                 inline_exclude=(), types=None, mutable=()):
         """variables: [(key text, domain tuple)] - ghosts (inputs);
         extra_vars: [(key, domain)] tracked but assignable (locals that are
         assigned more than once)."""
@@ -73,7 +73,8 @@ class Table(object):
             {k for k, _d in self.all_vars})
         sd = ctx.sd
         self.IN, self.ks = sd.analyze(
-            self.cfg, f, self.all_vars, init=init, ghost=set(self.keys),
+            self.cfg, f, self.all_vars, init=init,
+            ghost=set(self.keys) - set(mutable),
             inline=self.inline, types=types)
         self.frame = Frame(f.module, {}, None, f)
         for name, expr in self.inline.items():
